@@ -164,7 +164,7 @@ func TestExamples(t *testing.T) {
 
 type Batch struct {
 	Texts []pbt.Txt `json:"texts"`
-	Perm  []int    `json:"perm"`
+	Perm  []int     `json:"perm"`
 }
 
 func formatAll(texts []pbt.Txt, order []int, noise bool) map[int][2]string {
